@@ -812,8 +812,8 @@ def list_loops(ctx, rep, rule):
                 for v in body.blocks[u].succs():
                     if v in blocks or body.blocks[v].cleanup:
                         continue
-                    if not (cfg.reachable(body, [v]) & oks):
-                        continue   # error exit
+                    if not (cells.feasible_from(body, [v]) & oks):
+                        continue   # error exit (an Err just built can only take the failure edge of the `?` that follows)
                     g = gs.get(u)
                     okx = g is not None and g.term[0] == "call" and (g.term[1] or "").endswith("::is_empty") and (u, v) == g.true_edge
                     if not okx:
@@ -821,5 +821,31 @@ def list_loops(ctx, rep, rule):
             rep.check(rule, "%s|list loop#%d runs to the end of the list" % (short, h), not bad, "left only when the remainder is empty",
                       "the loop over the %s's list can be left with undecoded octets remaining (exit edges %s): a truncated or malformed list is "
                       "accepted as a shorter one" % (what, bad), body.loc(body.blocks[h].term.get("line")), obligation=True)
-    if n < 2:
-        rep.violation(rule, "floor", "only %d list loops found in the PDU parsers, floor is 2" % n)
+    if n == 0:
+        rep.inconclusive(rule, "PDU parsers|list loops", "no parsing loop found in the PDU parsers (lists decoded by iterator adaptors): not decided")
+
+
+def oid_text_rejections(ctx, rep, rule):
+    """SnmpOid::try_from(&str) refuses text only because an arc is missing or does not parse, or because the first arc exceeds 2
+    or the second 39.  Any other condition leading straight to an error (a limit on the number or size of arcs) refuses OIDs
+    the property requires to be accepted."""
+    facts = ctx.facts
+    body = facts.body("<ber::objectid::SnmpOid<'_> as std::convert::TryFrom<&str>>::try_from")
+    if body is None:
+        rep.missing(rule, "SnmpOid::try_from(&str)")
+        return
+    prov = flow.Prov(body)
+    errs = flow.blocks_assigning_return(body, lambda rv: rv["k"] == "agg" and rv.get("vname") == "Err")
+    n = 0
+    for g, pol, tgt in flow.deciding_guards(body, prov, errs):
+        n += 1
+        t = g.term
+        is_arc = lambda s_: s_[0] == "call" and (s_[1] or "").endswith("OidSubelementIterator<'_> as std::iter::Iterator>::next")  # noqa: E731
+        consts = [s_[1] for s_ in flow.subterms(t) if s_[0] == "const" and isinstance(s_[1], int) and not isinstance(s_[1], bool)]
+        ok = flow.mentions(t, is_arc) and t[0] == "bin" and t[1] in ("Gt", "Ge", "Lt", "Le") and set(consts) <= {2, 3, 39, 40}
+        rep.check(rule, "SnmpOid::try_from(&str)|rejection on %s" % flow.fmt(t)[-60:], ok, "first arc > 2 or second arc > 39",
+                  "OID text is refused on a condition other than a malformed arc, first arc > 2 or second arc > 39 (%s): valid OIDs are rejected" % flow.fmt(t)[:120],
+                  body.loc(g.line), obligation=True)
+    if n == 0:
+        rep.inconclusive(rule, "SnmpOid::try_from(&str)|rejections", "no guarded error exit recognised", body.loc())
+
